@@ -96,7 +96,7 @@ func (propC17) Gen(r *Rand) *Plan {
 				a, b = b, a
 			}
 			prev = append(prev, a, b)
-			ops = append(ops, Op{Op: "add", I: a, J: b, S: r.Pick([]string{"A", "B", "A", "B", "none"})})
+			ops = append(ops, Op{Op: "add", I: a, J: b, S: r.Pick([]string{"A", "B", "A", "B", "none", "C"})})
 		case 1:
 			ops = append(ops, Op{Op: "adddefault", S: r.Pick([]string{"A", "B", "none"})})
 		case 2:
@@ -210,7 +210,11 @@ func (propC17) Exec(p *Plan, x *Ctx) *Outcome {
 			target = "map"
 			mp = utilities.NewCharReferenceMap()
 		}
+		refC := []int{42} // a reference of an uncomparable type (raw map only)
 		refName := func(got any) string {
+			if sl, ok := got.([]int); ok && len(sl) == 1 && &sl[0] == &refC[0] {
+				return "C"
+			}
 			switch {
 			case got == nil:
 				return "none"
@@ -232,9 +236,14 @@ func (propC17) Exec(p *Plan, x *Ctx) *Outcome {
 					v = refA
 				} else if ref == "B" {
 					v = refB
+				} else if ref == "C" {
+					v = refC
 				}
 				mp.AddInterval(rune(lo), rune(hi), v)
 			case "states":
+				if ref == "C" {
+					ref = "B"
+				}
 				var v tokenizers.ITokenizerState
 				if ref == "A" {
 					v = stA
@@ -243,12 +252,12 @@ func (propC17) Exec(p *Plan, x *Ctx) *Outcome {
 				}
 				tk.SetCharacterState(rune(lo), rune(hi), v)
 			case "wordchars":
-				if ref == "B" {
+				if ref == "B" || ref == "C" {
 					ref = "A"
 				}
 				ws.SetWordChars(rune(lo), rune(hi), ref == "A")
 			case "whitespacechars":
-				if ref == "B" {
+				if ref == "B" || ref == "C" {
 					ref = "A"
 				}
 				wh.SetWhitespaceChars(rune(lo), rune(hi), ref == "A")
@@ -407,7 +416,7 @@ func (propC17) Exec(p *Plan, x *Ctx) *Outcome {
 }
 
 func wantKind(s string) string {
-	if s == "A" || s == "B" {
+	if s == "A" || s == "B" || s == "C" {
 		return "ref"
 	}
 	return s
